@@ -31,7 +31,7 @@ from ..legacy import LegacyHooks, LPORT, run_helper, transports
 from ..interp import (Interp, Outcome, Opaque, Str, Slot, Tup, Const, Cmp, IsNone, Truthy, In, NotC,
                       AndC, OrC, Pred, State, ObjRef, Effect, Bound, FuncRef, ExtRef, NONE, TRUE,
                       FALSE, fold_cond, type_of, assigned_names)
-from ..loops import Region, SplitNeeded, affine_in
+from ..loops import Region, SplitNeeded, affine_in, OneIterMixin
 from ..poly import Sym, mk_func
 from ..model import AnalysisError, Program
 from ..report import Check, VERIF
@@ -538,6 +538,196 @@ def emitted_duration(e, layer):
     return None
 
 
+class ClosedFormMixin(OneIterMixin):
+    """Pause written in closed form (divmod / // / % by a literal m, a counted loop of full chunks
+    and a remainder): the remaining time is n = m*Q + r with r enumerated over 0..m-1 and Q a
+    symbolic integer restricted to a region; comparisons affine in Q are decided per region."""
+
+    def body_ok(self, out):
+        return not any(e.kind == 'summary' and e.args[0].err_set for e in out.state.effects)
+
+    def init_closed(self, region):
+        self.init_one_iter()
+        self.region = region
+        self.atom = ('v', '@q')
+
+    def closed_decide(self, cond):
+        if isinstance(cond, Cmp) and isinstance(cond.a, Sym) and isinstance(cond.b, Sym) \
+                and cond.b == Sym.const(0):
+            af = affine_in(cond.a, self.atom)
+            if af is not None:
+                return self.region.decide_cmp(cond.op, af[0], af[1])
+        if isinstance(cond, Truthy) and isinstance(cond.v, Sym):
+            af = affine_in(cond.v, self.atom)
+            if af is not None:
+                return self.region.decide_cmp('!=', af[0], af[1])
+        return None
+
+
+class LegacyClosed(ClosedFormMixin, LegacyHooks):
+    def __init__(self, region):
+        LegacyHooks.__init__(self)
+        self.init_closed(region)
+
+    def decide(self, cond, st):
+        r = LegacyHooks.decide(self, cond, st)
+        return r if r is not None else self.closed_decide(cond)
+
+    def loop(self, interp, node, st):
+        return self.one_iter_loop(interp, node, st)
+
+
+class Ebb3Closed(ClosedFormMixin, EBB3Hooks):
+    def __init__(self, engine, region, exclude):
+        EBB3Hooks.__init__(self, engine, inject=False, exclude=exclude)
+        self.init_closed(region)
+
+    def decide(self, cond, st):
+        r = EBB3Hooks.decide(self, cond, st)
+        return r if r is not None else self.closed_decide(cond)
+
+    def loop(self, interp, node, st):
+        return self.one_iter_loop(interp, node, st)
+
+
+def literal_moduli(fn):
+    ms = set()
+    for node in ast.walk(fn.node):
+        c = None
+        if isinstance(node, ast.Call) and isinstance(node.func, ast.Name) and \
+                node.func.id == 'divmod' and len(node.args) == 2:
+            c = node.args[1]
+        elif isinstance(node, ast.BinOp) and isinstance(node.op, (ast.FloorDiv, ast.Mod)):
+            c = node.right
+        if isinstance(c, ast.Constant) and isinstance(c.value, int) and c.value > 0:
+            ms.add(c.value)
+    return ms
+
+
+def check_pause_closed(ck, prog, eng, layer, fn, param):
+    q = fn.qualname
+    ms = literal_moduli(fn)
+    if len(ms) != 1:
+        raise AnalysisError('%s: neither a while-form chunking loop nor a closed form with one '
+                            'literal chunk size (found divisors %s); the pause rule cannot '
+                            'conclude' % (q, sorted(ms)))
+    m = ms.pop()
+    if m > 5000:
+        raise AnalysisError('%s: chunk size %d too large to enumerate remainders' % (q, m))
+    Q = Sym.var('@q')
+    poly.INT_VARS.add('@q')
+
+    def sent_of(effs):
+        if layer == 'legacy':
+            return transports(effs)
+        return [e for e in effs if (e.kind == 'summary' and e.args[0].wrote) or is_port_call(e, ('write',))]
+
+    def run(value, hk):
+        if layer == 'legacy':
+            return run_helper(prog, fn, overrides={param: value}, hooks=hk)
+        return eng.run(fn.name, OK, overrides={param: value}, hooks=hk)
+
+    # ---- n <= 0: nothing is sent (n symbolic over the region (-inf..0])
+    hk = (LegacyChunkHooks(Region(None, 0), param) if layer == 'legacy'
+          else Ebb3ChunkHooks(eng, Region(None, 0), param, fn.name))
+    hk.chunk_loop = lambda *a, **k: None
+    n_sym = Sym(poly.Poly.atom(('v', '@n')))
+    try:
+        outs = run(n_sym, hk)
+        sent = [e for o in outs for e in sent_of(o.state.effects)]
+        undecided = any(isinstance(c, Cmp) for o in outs for c, t in o.state.path)
+    except SplitNeeded:
+        sent, undecided = [None], False
+    ck.ob('C06-D5-pause-domain', '%s n<=0' % q, not sent and not undecided,
+          '%s sends something (or takes an undecided branch) for a pause time n <= 0; none must '
+          'be emitted' % q, fn.loc(), key='%s::domain' % q)
+    # ---- n = m*Q + r >= 1
+    n_cases = 0
+    for r in range(m):
+        work = [Region(0 if r >= 1 else 1, None)]
+        guard = 0
+        while work:
+            guard += 1
+            if guard > 50:
+                raise AnalysisError('%s: region refinement does not converge' % q)
+            reg = work.pop()
+            if reg.empty():
+                continue
+            hk = LegacyClosed(reg) if layer == 'legacy' else Ebb3Closed(eng, reg, fn.name)
+            try:
+                outs = run(m * Q + r, hk)
+            except SplitNeeded as sp:
+                a, b = reg.split(sp.point)
+                work.extend([a, b])
+                continue
+            inst = '%s n=%d*Q+%d, Q in %r' % (q, m, r, reg)
+            def acked_state(st_):
+                return not any(e.kind == 'summary' and e.args[0].err_set for e in st_.effects)
+            outs = [o for o in outs if (o.kind == 'return' or o.kind == 'fall')
+                    and acked_state(o.state)]
+            if len(outs) != 1:
+                raise AnalysisError('%s: %d paths for %s (a test is not decided by the residue '
+                                    'and the region)' % (q, len(outs), inst))
+            n_cases += 1
+            o = outs[0]
+            # total = sum over counted loops (trip count * per-iteration durations) + the rest
+            total = Sym.const(0)
+            ok_range = True
+            in_loop = {}
+            for rec in hk.loop_records:
+                start = len(rec.entry.effects)
+                per_iter = []
+                bodies = [b for b in rec.bodies if acked_state(b.state)]
+                for b in bodies:
+                    per_iter = sent_of(b.state.effects)[len(sent_of(rec.entry.effects)):]
+                itv = rec.iter_value
+                trips = None
+                if isinstance(itv, Opaque) and itv.label == 'range' and len(itv.args) == 1 and \
+                        isinstance(itv.args[0], Sym):
+                    trips = itv.args[0]
+                if trips is None or len(bodies) != 1:
+                    raise AnalysisError('%s: loop at line %d is not a counted loop' % (q, rec.line))
+                af = affine_in(trips, ('v', '@q'))
+                if af is None:
+                    raise AnalysisError('%s: trip count %s is not affine in the quotient' % (q, trips))
+                lo_t, _hi = reg.sign_range(af[0], af[1])
+                if lo_t < 0:
+                    raise SplitNeeded(0) if False else AnalysisError(
+                        '%s: trip count %s may be negative' % (q, trips))
+                for e in per_iter:
+                    d = emitted_duration(e, layer)
+                    in_loop[id(e)] = True
+                    if d is None or not d.is_const():
+                        ok_range = False
+                        continue
+                    if not 1 <= d.const_value() <= MAX_CHUNK:
+                        ok_range = False
+                    total = total + trips * d
+            tail = [e for e in sent_of(o.state.effects) if id(e) not in in_loop]
+            for e in tail:
+                d = emitted_duration(e, layer)
+                if d is None:
+                    ok_range = False
+                    continue
+                af = affine_in(d, ('v', '@q'))
+                if af is None:
+                    ok_range = False
+                    continue
+                lo_d, hi_d = reg.sign_range(af[0], af[1])
+                if lo_d < 1 or hi_d > MAX_CHUNK:
+                    ok_range = False
+                total = total + d
+            ck.ob('C06-D5-pause-range', inst, ok_range,
+                  '%s: for n = %d*Q + %d an emitted zero-move does not have a duration in 1..%d '
+                  '(or is not of the form SM,<d>,0,0)' % (q, m, r, MAX_CHUNK), fn.loc(),
+                  key='%s::range' % q)
+            ck.ob('C06-D5-pause-sum', inst, total == m * Q + r,
+                  '%s: for a pause of n = %d*Q + %d ms (Q in %r) the emitted durations add up to '
+                  '%s, not n' % (q, m, r, reg, total), fn.loc(), key='%s::sum' % q)
+    ck.floor('%s closed-form residue cases' % fn.name, n_cases, m)
+    poly.INT_VARS.discard('@q')
+
+
 def check_pause(ck, prog, eng, layer):
     name = PAUSE_HELPERS[layer]
     if layer == 'legacy':
@@ -564,8 +754,7 @@ def check_pause(ck, prog, eng, layer):
     for r, hk in regions:
         inst = '%s n in %r' % (q, r)
         if hk.iter is None:
-            raise AnalysisError('%s: no while-form chunking loop found; the pause rule cannot '
-                                'conclude on this shape of code' % q)
+            return check_pause_closed(ck, prog, eng, layer, fn, param)
         ck.ob('C06-D5-pause-start', inst, hk.entry_value == Sym.var(param),
               '%s: the loop does not start from the requested pause time (starts from %s)'
               % (q, hk.entry_value), fn.loc(), key='%s::start' % q)
